@@ -180,6 +180,7 @@ fn prop_kind(p: &Proposal) -> &'static str {
 
 pub struct World<C: MlsConfig, E: ExternalMlsConfig> {
     pub observers: BTreeMap<String, ExternalGroup<E>>,
+    pub obs_signer: BTreeMap<String, String>,
     pub mk_obs: Box<dyn Fn(Option<u64>, Option<(SignatureSecretKey, SigningIdentity)>) -> ExternalClient<E>>,
     pub suite: CipherSuite,
     pub members: BTreeMap<String, Member<C>>,
@@ -375,10 +376,16 @@ impl<C: MlsConfig, E: ExternalMlsConfig + Clone> World<C, E> {
         }
         match kind {
             "create" => {
+                // optional ExternalSendersExt: identities of the named (configured) parties
+                let mut gce = ExtensionList::new();
+                if let Some(names) = op["ext_senders"].as_array() {
+                    let ids: Vec<SigningIdentity> = names.iter().filter_map(|n| n.as_str()).filter_map(|n| self.members.get(n).map(|m| m.identity.clone())).collect();
+                    mls!(gce.set_from(mls_rs::extension::built_in::ExternalSendersExt::new(ids)));
+                }
                 let m = self.members.get_mut(&who).ok_or("no such member")?;
                 let g = match op["gid"].as_str() {
-                    Some(gid) => mls!(m.client.create_group_with_id(hex::decode(gid).unwrap_or_default(), ExtensionList::new(), ExtensionList::new(), None)),
-                    None => mls!(m.client.create_group(ExtensionList::new(), ExtensionList::new(), None)),
+                    Some(gid) => mls!(m.client.create_group_with_id(hex::decode(gid).unwrap_or_default(), gce, ExtensionList::new(), None)),
+                    None => mls!(m.client.create_group(gce, ExtensionList::new(), None)),
                 };
                 m.group = Some(g);
                 Ok(json!({}))
@@ -900,6 +907,9 @@ impl<C: MlsConfig, E: ExternalMlsConfig + Clone> World<C, E> {
                     Some(n) => self.members.get(n).map(|m| (m.signer.clone(), m.identity.clone())),
                     None => None,
                 };
+                if let Some(n) = op["signer_of"].as_str() {
+                    self.obs_signer.insert(who.clone(), n.to_string());
+                }
                 let ec = (self.mk_obs)(op["jitter"].as_u64(), signer);
                 let g = mls!(ec.observe_group(gi, tree, None));
                 self.observers.insert(who.clone(), g);
@@ -919,11 +929,37 @@ impl<C: MlsConfig, E: ExternalMlsConfig + Clone> World<C, E> {
                     ExternalReceivedMessage::KeyPackage(_) => json!({"kind": "key_package"}),
                 })
             }
+            "obs_propose" => {
+                // the observer acts as an EXTERNAL SENDER (it was created with signer_of)
+                let kind = op["kind"].as_str().unwrap_or("").to_string();
+                let msg = match kind.as_str() {
+                    "add" => {
+                        let kp = self.msg(op["kp"].as_str().unwrap_or(""))?;
+                        let g = self.observers.get_mut(&who).ok_or("no such observer")?;
+                        mls!(g.propose_add(kp, aad))
+                    }
+                    "remove" => {
+                        let idx = match op["name"].as_str() {
+                            Some(n) => {
+                                let g = self.observers.get(&who).ok_or("no such observer")?;
+                                g.roster().members_iter().find(|m| m.signing_identity.credential.as_basic().map(|b| b.identifier == n.as_bytes()).unwrap_or(false)).map(|m| m.index).ok_or("NoSuchMemberName")?
+                            }
+                            None => op["index"].as_u64().unwrap_or(0) as u32,
+                        };
+                        let g = self.observers.get_mut(&who).ok_or("no such observer")?;
+                        mls!(g.propose_remove(idx, aad))
+                    }
+                    _ => return Err("bad obs_propose kind".into()),
+                };
+                self.msgs.insert(id, mls!(msg.to_bytes()));
+                Ok(json!({}))
+            }
             "obs_reload" => {
                 let g = self.observers.get(&who).ok_or("no such observer")?;
                 let b = mls!(g.snapshot().to_bytes());
                 let snap = mls!(ExternalSnapshot::from_bytes(&b));
-                let ec = (self.mk_obs)(op["jitter"].as_u64(), None);
+                let signer = self.obs_signer.get(&who).and_then(|n| self.members.get(n)).map(|m| (m.signer.clone(), m.identity.clone()));
+                let ec = (self.mk_obs)(op["jitter"].as_u64(), signer);
                 let g2 = mls!(ec.load_group(snap));
                 self.observers.insert(who.clone(), g2);
                 Ok(json!({"bytes": b.len()}))
@@ -936,7 +972,7 @@ impl<C: MlsConfig, E: ExternalMlsConfig + Clone> World<C, E> {
 
 pub fn run_world<C: MlsConfig, E: ExternalMlsConfig + Clone + 'static>(script: &Value, mk: &dyn Fn(&Spec, &Parts, CipherSuite) -> Client<C>, mk_obs: fn(Option<u64>, Option<(SignatureSecretKey, SigningIdentity)>) -> ExternalClient<E>, dir: &std::path::Path) -> i32 {
     let suite = CipherSuite::from(script["suite"].as_u64().unwrap_or(1) as u16);
-    let mut world = World { observers: BTreeMap::new(), mk_obs: Box::new(mk_obs), suite, members: BTreeMap::new(), msgs: HashMap::new(), trees: HashMap::new(), intern: Intern { map: HashMap::new() } };
+    let mut world = World { observers: BTreeMap::new(), obs_signer: BTreeMap::new(), mk_obs: Box::new(mk_obs), suite, members: BTreeMap::new(), msgs: HashMap::new(), trees: HashMap::new(), intern: Intern { map: HashMap::new() } };
     for m in script["members"].as_array().cloned().unwrap_or_default() {
         let spec = Spec {
             name: m["name"].as_str().unwrap_or("?").to_string(),
